@@ -366,6 +366,10 @@ func CallArgs(a abi.ABI, data []byte) []interface{} {
 	return out
 }
 
+// MapOrder fixes the iteration order of every later range over a map (symbolic execution only):
+// 0 insertion order, 1 reversed, k>=2 rotated by k-1. Natively Go's own randomised order applies.
+func MapOrder(k int) {}
+
 // Tier: 0 quick, 1 thorough.
 func Tier() int {
 	if os.Getenv("VERIF_TIER") == "thorough" {
